@@ -9,10 +9,8 @@
    BUG selects a seeded defect for the negative controls ("none" = the code as read): "stale_cache" (a write does not
    invalidate the read cache), "ignore_aborted", "cache_hit_lane" (a cache hit returns the lane of the read that filled
    the cache), "ack_without_merge" (a write that cannot be merged is acknowledged anyway, i.e. lost).
-   Note (found by TLC): the lane-occupied term of wr_can_merge, the "drain pending write before a read" branch and the flush
-   on the last beat cannot be told apart from their absence by ANY legal master (a CTI=010 burst never revisits a lane,
-   and leaving a burst needs CYC low, which flushes), nor can clearing wr_data / wr_we after the flush (the first merge
-   overwrites them) -- seeded removals of those are satisfied by R_WbMem. *)
+   "inval_on_flush_only" (seeded/C10-c: the cache is invalidated only by a write that flushes), "merge_occupied",
+   "read_bypasses_pending_write".  CTI is a hint: the master may follow a CTI=010 beat by anything. *)
 EXTENDS Integers, Sequences, FiniteSets
 
 RECURSIVE DwOr(_, _, _)
@@ -27,7 +25,7 @@ BInit(R) == [fsm |-> "CMD", aborted |-> 0,
 
 DwWide(R, i) == i.a \div R
 DwChunk(R, i) == i.a % R
-DwCanMerge(R, r, i, BUG) == r.wr_valid = 0 \/ (r.wr_addr = DwWide(R, i) /\ r.wr_sel[DwChunk(R, i) + 1] = 0)
+DwCanMerge(R, r, i, BUG) == r.wr_valid = 0 \/ (r.wr_addr = DwWide(R, i) /\ (BUG = "merge_occupied" \/ r.wr_sel[DwChunk(R, i) + 1] = 0))
 DwNextSel(R, r, i) == [r.wr_sel EXCEPT ![DwChunk(R, i) + 1] = 1]
 DwFlush(R, r, i, BUG) == i.last = 1 \/ (\A k \in 1..R : DwNextSel(R, r, i)[k] = 1)
 DwHit(R, r, i) == r.rc_valid = 1 /\ r.rc_addr = DwWide(R, i)
@@ -62,7 +60,8 @@ BNext(R, r, i, BUG) ==
             IF r.wr_valid = 1 THEN [r1 EXCEPT !.wr_last = 1, !.fsm = "WRITE_CMD"] ELSE r1
          ELSE IF i.stb = 1 THEN
             IF i.we = 1 THEN
-               LET r1 == IF BUG = "stale_cache" THEN r0 ELSE [r0 EXCEPT !.rc_valid = 0] IN
+               LET r1 == IF BUG = "stale_cache" \/ (BUG = "inval_on_flush_only" /\ ~(DwCanMerge(R, r, i, BUG) /\ DwFlush(R, r, i, BUG)))
+                         THEN r0 ELSE [r0 EXCEPT !.rc_valid = 0] IN
                IF DwCanMerge(R, r, i, BUG) THEN
                   [r1 EXCEPT !.wr_valid = 1,
                              !.wr_addr = IF r.wr_valid = 1 THEN r.wr_addr ELSE DwWide(R, i),
@@ -74,7 +73,7 @@ BNext(R, r, i, BUG) ==
                              !.wr_last = i.last,
                              !.fsm = IF DwFlush(R, r, i, BUG) THEN "WRITE_CMD" ELSE "CMD"]
                ELSE [r1 EXCEPT !.wr_last = 1, !.fsm = "WRITE_CMD"]
-            ELSE IF r.wr_valid = 1 THEN [r0 EXCEPT !.wr_last = 1, !.fsm = "WRITE_CMD"]
+            ELSE IF r.wr_valid = 1 /\ BUG # "read_bypasses_pending_write" THEN [r0 EXCEPT !.wr_last = 1, !.fsm = "WRITE_CMD"]
             ELSE IF DwHit(R, r, i) THEN (IF i.last = 1 THEN [r0 EXCEPT !.rc_valid = 0] ELSE r0)
             ELSE [r0 EXCEPT !.rd_addr = DwWide(R, i), !.rd_chunk = DwChunk(R, i), !.rd_last = i.last, !.fsm = "READ_CMD"]
          ELSE r0
